@@ -1,6 +1,7 @@
 package main
 
 import (
+	"encoding/json"
 	"flag"
 	"fmt"
 	"os"
@@ -26,6 +27,13 @@ var props = map[string]propFn{}
 
 var repoDir, verifDir string
 
+var (
+	driverPath    string
+	seedArg       uint64
+	tierArg       string
+	isolatedChild bool
+)
+
 func main() {
 	prop := flag.String("prop", "", "property id (C01..C20) or 'stdlib'")
 	tier := flag.String("tier", "quick", "quick|thorough")
@@ -37,7 +45,10 @@ func main() {
 	flag.StringVar(&verifDir, "verif", "/verif", "verif root")
 	worker := flag.Bool("worker", false, "internal: run as session worker")
 	stress12 := flag.String("stress12", "", "internal: run one C12 stress scenario (seed,procs,lines,mode)")
+	runone := flag.String("runone", "", "internal: run ONE runner on the input in -runin (a process of its own: a panic in a library goroutine is an observation, not the end of the run)")
+	runin := flag.String("runin", "", "internal: JSON file with the input of -runone")
 	flag.Parse()
+	driverPath, seedArg, tierArg = *driver, *seed, *tier
 	if *stress12 != "" {
 		stressWorkerMain(strings.Split(*stress12, ","))
 		return
@@ -47,6 +58,32 @@ func main() {
 		return
 	}
 
+	if *runone != "" {
+		isolatedChild = true
+		l, err := StartLean(*driver)
+		if err != nil {
+			fatal("%v", err)
+		}
+		defer l.Close()
+		ctx := &Ctx{L: l, R: NewResult(*prop, *tier, *seed), Rng: NewRNG(*seed), Tier: *tier, Scale: 1}
+		if *tier == "thorough" {
+			ctx.Scale = 20
+		}
+		b, err := os.ReadFile(*runin)
+		if err != nil {
+			fatal("%v", err)
+		}
+		in := map[string]string{}
+		if err := json.Unmarshal(b, &in); err != nil {
+			fatal("runin: %v", err)
+		}
+		ctx.run(*runone, in)
+		for k := range ctx.R.seen {
+			ctx.R.SeenKeys = append(ctx.R.SeenKeys, k)
+		}
+		ctx.R.Write(*out)
+		return
+	}
 	fn, ok := props[*prop]
 	if !ok {
 		names := []string{}
